@@ -137,7 +137,7 @@ void rm_dir(const std::string &dir) {
 // fault-free pass (crash_at < 0): the child writes report.txt with the
 // operation log and the directory state after each dump.
 int run_child(const std::string &dir, int B, int D, uint64_t seed,
-              long crash_at, int variant, double frac) {
+              long crash_at, int variant, double frac, uint32_t restarts) {
   mkdir(dir.c_str(), 0700);
   fflush(stdout);
   fflush(stderr);
@@ -149,14 +149,20 @@ int run_child(const std::string &dir, int B, int D, uint64_t seed,
     int nfd = open("/dev/null", O_WRONLY);
     if (nfd >= 0)
       dup2(nfd, 2);
-    RestartManager mgr(".", 0., (uint_fast32_t)B, 1e30, "");
+    // `restarts` bit n: after dump n the process is replaced by a new one
+    // restarted in place (a new RestartManager over the same folder)
+    RestartManager *mgr = new RestartManager(".", 0., (uint_fast32_t)B, 1e30, "");
     std::string report;
     fsim::arm(crash_at, variant, frac);
     for (int n = 1; n <= D; ++n) {
       fsim::set_tag(n);
-      RestartWriter *w = mgr.get_restart_writer(nullptr);
+      RestartWriter *w = mgr->get_restart_writer(nullptr);
       write_dump(*w, seed, n);
       delete w;
+      if (n < 32 && ((restarts >> n) & 1u)) {
+        delete mgr;
+        mgr = new RestartManager(".", 0., (uint_fast32_t)B, 1e30, "");
+      }
       if (crash_at < 0) {
         fsim::disarm();
         DirState st = scan(".");
@@ -186,7 +192,8 @@ int run_child(const std::string &dir, int B, int D, uint64_t seed,
 // numbering pass: child runs fault-free, armed throughout, and reports the
 // operation log (index, kind, dump number)
 std::vector< fsim::Op > number_ops(const std::string &dir, int B, int D,
-                                   uint64_t seed, int &status) {
+                                   uint64_t seed, int &status,
+                                   uint32_t restarts) {
   std::vector< fsim::Op > ops;
   mkdir(dir.c_str(), 0700);
   int fd[2];
@@ -202,13 +209,17 @@ std::vector< fsim::Op > number_ops(const std::string &dir, int B, int D,
     int nfd = open("/dev/null", O_WRONLY);
     if (nfd >= 0)
       dup2(nfd, 2);
-    RestartManager mgr(".", 0., (uint_fast32_t)B, 1e30, "");
+    RestartManager *mgr = new RestartManager(".", 0., (uint_fast32_t)B, 1e30, "");
     fsim::arm(-1, 0, 0.);
     for (int n = 1; n <= D; ++n) {
       fsim::set_tag(n);
-      RestartWriter *w = mgr.get_restart_writer(nullptr);
+      RestartWriter *w = mgr->get_restart_writer(nullptr);
       write_dump(*w, seed, n);
       delete w;
+      if (n < 32 && ((restarts >> n) & 1u)) {
+        delete mgr;
+        mgr = new RestartManager(".", 0., (uint_fast32_t)B, 1e30, "");
+      }
     }
     fsim::disarm();
     std::string out;
@@ -269,7 +280,21 @@ public:
         c["B"] = B;
         c["D"] = D;
         c["seed"] = Json(std::to_string(mix64(77, (uint64_t)(B * 100 + D))));
+        c["restarts"] = 0;
         v.push_back(c);
+        // the same history with the process replaced (restarted in place)
+        // after dump 1, after dump D/2 and after both
+        if (D >= 2 && (tier != "quick" || B <= 3)) {
+          const int masks[3] = {1 << 1, 1 << (D / 2 < 1 ? 1 : D / 2),
+                                (1 << 1) | (1 << (D - 1))};
+          for (int m = 0; m < 3; ++m) {
+            if (m > 0 && masks[m] == masks[0])
+              continue;
+            Json c2 = c;
+            c2["restarts"] = masks[m];
+            v.push_back(c2);
+          }
+        }
       }
     return v;
   }
@@ -280,6 +305,11 @@ public:
     c["B"] = (int)r.range(0, 8);
     c["D"] = (int)r.range(0, tier == "quick" ? 10 : 20);
     c["seed"] = Json(std::to_string(r.next()));
+    int mask = 0;
+    const int nr = (int)r.below(3);
+    for (int k = 0; k < nr; ++k)
+      mask |= 1 << (int)r.range(1, 20);
+    c["restarts"] = mask;
     return c;
   }
 
@@ -288,6 +318,8 @@ public:
     const int B = (int)c.at("B").as_int(1);
     const int D = (int)c.at("D").as_int(3);
     const uint64_t seed = c.at("seed").as_u64(1);
+    const uint32_t restarts =
+        c.has("restarts") ? (uint32_t)c.at("restarts").as_int(0) : 0u;
     const long only_op = c.has("only_op") ? (long)c.at("only_op").as_int() : -1;
     const int only_variant =
         c.has("only_variant") ? (int)c.at("only_variant").as_int() : -1;
@@ -307,7 +339,7 @@ public:
     // ---- fault-free pass ----
     const std::string d0 = base + "/ff";
     rm_dir(d0);
-    int status = run_child(d0, B, D, seed, -1, 0, 0.);
+    int status = run_child(d0, B, D, seed, -1, 0, 0., restarts);
     ++children;
     if (!(WIFEXITED(status) && WEXITSTATUS(status) == 0)) {
       DirState st = scan(d0);
@@ -352,7 +384,7 @@ public:
       const std::string dn = base + "/num";
       rm_dir(dn);
       int st2 = 0;
-      std::vector< fsim::Op > ops = number_ops(dn, B, D, seed, st2);
+      std::vector< fsim::Op > ops = number_ops(dn, B, D, seed, st2, restarts);
       rm_dir(dn);
       ++children;
       // index of the truncating open of each dump
@@ -377,7 +409,7 @@ public:
           rm_dir(dc);
           Rng fr(mix64(seed, (uint64_t)o.index * 3 + (uint64_t)variant));
           const double frac = fr.unit();
-          int st3 = run_child(dc, B, D, seed, o.index, variant, frac);
+          int st3 = run_child(dc, B, D, seed, o.index, variant, frac, restarts);
           ++children;
           if (!(WIFEXITED(st3) && WEXITSTATUS(st3) == 137)) {
             fail("crash-model",
@@ -443,6 +475,7 @@ public:
     st["torn_writes"] = torn;
     st["previous_dump_found_in_backup"] = from_backup;
     st[sfmt("backups_%d", B)] = 1;
+    st["histories_with_process_restart"] = restarts ? 1 : 0;
     out.stats = st;
     out.signature = sig;
     return out;
@@ -461,13 +494,20 @@ public:
       m["B"] = b;
       v.push_back(m);
     }
+    if (c.has("restarts") && c.at("restarts").as_int(0) != 0) {
+      Json m = c;
+      m["restarts"] = 0;
+      v.push_back(m);
+    }
     return v;
   }
 
   void describe(Json &cov, Json &assumptions) const {
     cov["rule"] =
         "each case = (configured backups B in 0..8, number of dumps D in "
-        "0..20, payload sizes 0..70 kB straddling the 8 kB stream buffer); a "
+        "0..20, payload sizes 0..70 kB straddling the 8 kB stream buffer, 0-2 "
+        "points at which the process is replaced by a new one restarted in "
+        "place, i.e. a new RestartManager over the same folder); a "
         "fault-free pass checks the rotation after every dump against a "
         "vector model, then for EVERY file-system operation (open, write, "
         "writev, close, rename) of EVERY dump the history is re-run in a "
@@ -485,7 +525,8 @@ public:
     cov["components"] = comp;
     cov["fault_kinds"] = "process death before / after each file-system "
                          "operation of a dump, torn write (seeded prefix of "
-                         "the bytes reaches the file)";
+                         "the bytes reaches the file), process replaced by a "
+                         "restarted one between two dumps";
     assumptions.push("data handed to the kernel survives the death of the "
                      "process (no power loss / fsync model; the property "
                      "speaks about the process dying)");
